@@ -54,7 +54,7 @@ def strategy(tier):
 
 def budget(tier):
     if tier == 'quick':
-        return {'max_examples': 1600, 'shards': 8, 'time_budget': 100}
+        return {'max_examples': 3200, 'shards': 16, 'time_budget': 100}
     return {'max_examples': 160000, 'shards': 16, 'time_budget': 1500}
 
 
